@@ -50,7 +50,7 @@ type Action struct {
 	// pub-rtmp pub-rtsp pub-customize pub-rtp input-leave sub sub-leave sub-rejoin kick pull-start pull-proceed pull-stop refused-sends tick
 	Name int    `json:"name"`          // stream index
 	Sel  int    `json:"sel,omitempty"` // selector (subscriber / kick target / pull outcome / rtp pub timeout)
-	Sub  string `json:"sub,omitempty"` // rtmp | flv | ts | rtsp
+	Sub  string `json:"sub,omitempty"` // rtmp | flv | ts | rtsp | wsflv | wsts (WebSocket variants of the HTTP ones)
 	Av   bool   `json:"av,omitempty"`  // pub-rtmp, pub-customize, pull-start: the input sends a real H.264 + AAC stream
 	Bad  bool   `json:"bad,omitempty"` // sub: presents a wrong secret (cases with auth only) and must be refused
 }
@@ -69,7 +69,7 @@ func genCase(t *rapid.T) Case {
 	c.Auth = rapid.IntRange(0, 1).Draw(t, "auth") == 1
 	n := rapid.IntRange(2, 14).Draw(t, "nactions")
 	kinds := []string{"pub-rtmp", "pub-rtmp", "pub-rtmp", "pub-rtsp", "pub-rtp", "pub-customize", "input-leave", "input-leave", "sub", "sub", "sub", "sub-leave", "sub-rejoin", "kick", "kick",
-		"pull-start", "pull-start", "pull-proceed", "pull-proceed", "pull-stop", "refused-sends", "refused-sends", "tick", "tick", "pub-rtp"}
+		"pull-start", "pull-start", "pull-proceed", "pull-proceed", "pull-stop", "refused-sends", "refused-sends", "tick", "tick", "tick", "pub-rtp"}
 	for i := 0; i < n; i++ {
 		a := Action{Kind: rapid.SampledFrom(kinds).Draw(t, "kind"), Name: rapid.IntRange(0, c.Names-1).Draw(t, "name"), Sel: rapid.IntRange(0, 7).Draw(t, "sel")}
 		if i == 0 && rapid.IntRange(0, 4).Draw(t, "pullFirst") == 1 {
@@ -78,7 +78,10 @@ func genCase(t *rapid.T) Case {
 			a.Kind = "pull-start"
 		}
 		if i > 0 && c.Actions[i-1].Kind == "pull-start" {
-			switch rapid.IntRange(0, 5).Draw(t, "afterPullStart") {
+			switch rapid.IntRange(0, 7).Draw(t, "afterPullStart") {
+			case 6:
+				// ... and a publisher that takes the stream while the pull is connecting
+				a = Action{Kind: "pub-rtmp", Name: c.Actions[i-1].Name, Sel: a.Sel, Av: a.Sel%2 == 0}
 			case 1, 2:
 				// a relay pull as the accepted input needs "origin answers play" before anything else takes the
 				// stream and before lal's pull timeout: too rare by chance
@@ -86,16 +89,40 @@ func genCase(t *rapid.T) Case {
 			case 3:
 				// ... and so is a tick while the pull is connecting, followed by the origin's answer
 				a = Action{Kind: "tick", Name: c.Actions[i-1].Name, Sel: a.Sel}
+			case 4:
+				// ... and a stop or a second start while it is connecting
+				a = Action{Kind: "pull-stop", Name: c.Actions[i-1].Name}
+			case 5:
+				a = Action{Kind: "pull-start", Name: c.Actions[i-1].Name, Sel: a.Sel, Av: a.Sel%2 == 0}
 			}
 		}
-		if i > 1 && c.Actions[i-2].Kind == "pull-start" && c.Actions[i-1].Kind == "tick" && rapid.IntRange(0, 2).Draw(t, "afterTick") != 1 {
+		if i > 1 && c.Actions[i-2].Kind == "pull-start" && (c.Actions[i-1].Kind == "pull-stop" || c.Actions[i-1].Kind == "pull-start") && c.Actions[i-1].Name == c.Actions[i-2].Name {
+			switch rapid.IntRange(0, 3).Draw(t, "afterStopWhileConnecting") {
+			case 1:
+				a = Action{Kind: "pull-start", Name: c.Actions[i-1].Name, Sel: a.Sel}
+			case 2, 3:
+				a = Action{Kind: "pull-proceed", Name: c.Actions[i-1].Name, Sel: 1 + a.Sel%2}
+			}
+		}
+		if i > 1 && c.Actions[i-2].Kind == "pull-start" && (c.Actions[i-1].Kind == "tick" || c.Actions[i-1].Kind == "pub-rtmp") && c.Actions[i-1].Name == c.Actions[i-2].Name && rapid.IntRange(0, 2).Draw(t, "afterTick") != 1 {
 			a = Action{Kind: "pull-proceed", Name: c.Actions[i-2].Name, Sel: 1 + a.Sel%2}
+		}
+		if i > 1 && c.Actions[i-2].Kind == "pull-start" && c.Actions[i-1].Kind == "pull-proceed" && rapid.IntRange(0, 1).Draw(t, "subUnderPull") == 1 {
+			// a relay pull that has just attached rarely meets a subscriber by chance
+			a = Action{Kind: "sub", Name: c.Actions[i-1].Name, Sel: a.Sel}
+		}
+		if i > 0 && c.Actions[i-1].Kind == "tick" && a.Kind != "pull-proceed" && rapid.IntRange(0, 1).Draw(t, "tickAgain") == 1 {
+			// lal's liveness rule needs two sweeps over the same sessions: a lone tick decides nothing
+			a = Action{Kind: "tick", Name: a.Name, Sel: 1 + a.Sel%2 + 3*(a.Sel%2)}
 		}
 		switch a.Kind {
 		case "kick":
 			a.Sel = rapid.IntRange(0, 31).Draw(t, "kickSel") // the candidate list is longer than 8 in busy histories
+			if rapid.IntRange(0, 3).Draw(t, "kickInput") == 1 {
+				a.Sel = 0 // the accepted input, if there is one with an id: its old handle is probed afterwards
+			}
 		case "sub":
-			a.Sub = rapid.SampledFrom([]string{"rtmp", "flv", "ts", "rtsp"}).Draw(t, "subKind")
+			a.Sub = rapid.SampledFrom([]string{"rtmp", "flv", "ts", "rtsp", "wsflv", "rtmp", "flv", "ts", "rtsp", "wsts"}).Draw(t, "subKind")
 			if c.Auth {
 				a.Bad = rapid.IntRange(0, 2).Draw(t, "bad") == 1
 			}
@@ -126,6 +153,7 @@ type input struct {
 	udp       net.Conn
 	psStarted bool
 	sent      [][]byte // markers sent since the input was accepted (judged at the file outputs)
+	live      liveness
 }
 
 type subscriber struct {
@@ -133,6 +161,7 @@ type subscriber struct {
 	k     sink
 	id    string
 	epoch int // streamModel.epoch at the time of joining
+	live  liveness
 }
 
 // lal only notices a failed pull attempt when its pull timeout expires, so the timeout bounds the cost of the
@@ -146,6 +175,7 @@ type pendingPull struct {
 	conn    *stub.Conn
 	id      string // pull session id returned by the API
 	av      bool
+	enabled bool // relay pull still switched on (a stop_relay_pull while connecting switches it off, a start on again)
 }
 
 type streamModel struct {
@@ -168,6 +198,8 @@ type world struct {
 	streams []*streamModel
 	marker  uint32
 	clock   uint32 // media clock of the av probes (ms)
+	sweeps  int    // liveness sweeps so far (tick numbers: multiples of base.LogicCheckSessionAliveIntervalSec)
+	quiet   bool   // the action was a tick: the invariant sends no probe behind it
 	// expected notification multiset
 	accPubs  map[string]bool // session id -> accepted network publisher
 	accSubs  map[string]bool
@@ -208,6 +240,7 @@ func run(c Case) *pbt.Violation {
 	defer w.closeHandles()
 	for ai, a := range c.Actions {
 		st := w.streams[a.Name%len(w.streams)]
+		w.quiet = false
 		if v := w.apply(ai, a, st); v != nil {
 			return v
 		}
@@ -438,6 +471,10 @@ func (w *world) apply(ai int, a Action, st *streamModel) *pbt.Violation {
 			ids = append(ids, sb.id)
 		}
 		ids = append(ids, st.staleIDs...)
+		if st.pull != nil {
+			// a pull that is still connecting is not attached: its id is a foreign id (and the kick changes nothing)
+			ids = append(ids, st.pull.id)
+		}
 		for _, o := range w.streams {
 			if o != st {
 				if o.in != nil && o.in.id != "" {
@@ -499,15 +536,30 @@ func (w *world) apply(ai int, a Action, st *streamModel) *pbt.Violation {
 			}
 		}
 	case "pull-start":
-		if st.pull != nil {
-			return nil // one scripted pull at a time per stream
-		}
 		before := w.origin.Attempts()
 		var resp base.ApiCtrlStartRelayPullResp
 		s.Call("CtrlStartRelayPull", func() {
 			resp = s.SM.CtrlStartRelayPull(base.ApiCtrlStartRelayPullReq{Url: "rtmp://" + w.origin.Addr + "/live/" + st.name, StreamName: st.name,
 				PullTimeoutMs: pullTimeoutMs, PullRetryNum: 0, AutoStopPullAfterNoOutMs: -1})
 		})
+		if st.pull != nil {
+			// an attempt is in flight: at most one pull per stream.  The call reports failure, the origin sees no
+			// second connection, and relay pull is (again) switched on for the attempt that is connecting
+			pbt.Count("pull-start-while-connecting", 1)
+			if resp.ErrorCode == base.ErrorCodeSucc {
+				return pbt.V("A1/second-pull-started-while-connecting", "%s: start_relay_pull answered success (session %s) while attempt %s is still connecting", w.who(ai, a), resp.Data.SessionId, st.pull.id)
+			}
+			time.Sleep(2 * time.Millisecond)
+			if w.origin.Attempts() != before {
+				return pbt.V("A1/second-pull-started-while-connecting", "%s: the origin saw a second connection while attempt %s is still connecting", w.who(ai, a), st.pull.id)
+			}
+			st.pull.enabled = true
+			if st.in != nil && st.in.kind != "pull" {
+				w.disablePull(st) // as below: the pull must not come back behind the model once the publisher is gone
+				st.pull.enabled = false
+			}
+			return nil
+		}
 		if st.in != nil {
 			if resp.ErrorCode == base.ErrorCodeSucc {
 				return pbt.V("A1/pull-started-with-input", "%s: start_relay_pull answered success while input %s (%s) is accepted", w.who(ai, a), st.in.id, st.in.kind)
@@ -537,7 +589,7 @@ func (w *world) apply(ai int, a Action, st *streamModel) *pbt.Violation {
 		if err := oc.ServeUntilPlayOrPublish(); err != nil {
 			lalclient.Harness("stub serve: %v", err)
 		}
-		st.pull = &pendingPull{outcome: a.Sel % 3, conn: oc, id: resp.Data.SessionId, started: time.Now(), av: a.Av}
+		st.pull = &pendingPull{outcome: a.Sel % 3, conn: oc, id: resp.Data.SessionId, started: time.Now(), av: a.Av, enabled: true}
 		w.pullIDs = append(w.pullIDs, resp.Data.SessionId)
 	case "pull-proceed":
 		if st.pull == nil {
@@ -564,7 +616,21 @@ func (w *world) apply(ai int, a Action, st *streamModel) *pbt.Violation {
 			if err := pp.conn.AcceptPlay(); err != nil {
 				lalclient.Harness("stub AcceptPlay: %v", err)
 			}
-			if st.in == nil {
+			if st.in == nil && !pp.enabled {
+				// relay pull was stopped while this attempt was connecting: it must not become the input
+				pbt.Count("pull-stopped-while-connecting-then-answered", 1)
+				waitUntil(lalclient.DeliverTimeout, func() bool { return w.hasEvent("pull_stop", pp.id) || w.hasEvent("pull_start", pp.id) })
+				if w.hasEvent("pull_start", pp.id) {
+					return pbt.V("A1/stopped-pull-attached", "%s: relay pull %s was stopped while connecting, yet it attached when the origin answered", w.who(ai, a), pp.id)
+				}
+				if !w.hasEvent("pull_stop", pp.id) {
+					return pbt.V("A3/no-pull-stop", "%s: relay pull %s, stopped while connecting, produced no stop notification after the origin answered", w.who(ai, a), pp.id)
+				}
+				pbt.Count("old-handle-sends:pull-stopped-connecting", 1)
+				sendBadRtmp(pp.conn.SendMedia)
+				pp.conn.Close()
+				w.disablePull(st)
+			} else if st.in == nil {
 				// the pull attaches
 				if !w.waitEvent("pull_start", pp.id, lalclient.DeliverTimeout) {
 					return pbt.V("pull/not-attached", "%s: the origin accepted play for %s but the pull never attached (no start notification)", w.who(ai, a), pp.id)
@@ -587,11 +653,14 @@ func (w *world) apply(ai int, a Action, st *streamModel) *pbt.Violation {
 			}
 		}
 	case "pull-stop":
-		if st.pull != nil {
-			return nil // stopping a pull that is still connecting is C17's subject; not exercised here
-		}
 		var resp base.ApiCtrlStopRelayPullResp
 		s.Call("CtrlStopRelayPull", func() { resp = s.SM.CtrlStopRelayPull(st.name) })
+		if st.pull != nil {
+			// nothing is attached yet (so nothing to report), but relay pull is off now: the attempt in flight must
+			// never attach, and ends with exactly one stop notification (judged at pull-proceed / the end)
+			pbt.Count("pull-stop-while-connecting", 1)
+			st.pull.enabled = false
+		}
 		if st.in != nil && st.in.kind == "pull" {
 			if resp.ErrorCode != base.ErrorCodeSucc || resp.Data.SessionId != st.in.id {
 				return pbt.V("pull-stop/wrong-answer", "%s: stop_relay_pull with attached pull %s answered %d %q", w.who(ai, a), st.in.id, resp.ErrorCode, resp.Data.SessionId)
@@ -609,14 +678,8 @@ func (w *world) apply(ai int, a Action, st *streamModel) *pbt.Violation {
 		}
 	case "tick":
 		// what RunLoop's one-second ticker does to the groups (inactive groups are disposed and erased, the others
-		// ticked); tick number 1 keeps the periodic liveness sweep and the statistics out of it.  Nothing in the
-		// model changes: an accepted input, an attached subscriber or a pull in flight keeps its group alive, and
-		// the pulls of this check are disabled again as soon as their scripted attempt is over.
-		before := w.origin.Attempts()
-		s.Call("ServerManager tick", func() { s.SM.VerifTick(1) })
-		if st.pull == nil && w.origin.Attempts() != before {
-			lalclient.Harness("a tick started a pull attempt behind the model's back")
-		}
+		// ticked), with and without the periodic liveness sweep: see sweep_test.go
+		return w.tickAction(ai, a, st)
 	case "refused-sends":
 		// media from a refused publisher, or sent on the old handle of an input that was kicked or has left, must
 		// reach no one (checked by the invariant's negative probe)
@@ -834,7 +897,7 @@ func (w *world) invariant(ai int, a Action) *pbt.Violation {
 			return pbt.V("A4/stat-pull-differs", "after %s: stream %s stat lists pull session %q, attached pull is %q", w.who(ai, a), st.name, gotPull, wantPull)
 		}
 		// A2: positive probe
-		if st.in != nil {
+		if st.in != nil && !w.quiet {
 			if v := w.probe(ai, a, st); v != nil {
 				return v
 			}
@@ -859,7 +922,7 @@ func (w *world) probe(ai int, a Action, st *streamModel) *pbt.Violation {
 	var judged []*subscriber
 	for _, sb := range st.subs {
 		switch sb.kind {
-		case "rtmp", "flv":
+		case "rtmp", "flv", "wsflv":
 			judged = append(judged, sb)
 		default:
 			// an HTTP-TS / RTSP subscriber is described one input (PAT/PMT, SDP): judged under the input it met
